@@ -16,7 +16,8 @@ BotHigh == {<<-22, 30>>}
 Wide    == {<<-70, 30>>}                               \* one band straddling both bands of a C+L amplifier
 Tri     == {<<-70, -45>>, <<-30, -5>>, <<5, 30>>}      \* three bands
 CL2     == {<<-70, -50>>, <<-25, 30>>}                 \* same outer range as CL, other inner edges
-Menu    == {C, L, CL, NarrowC, TopLow, BotHigh, Wide, Tri, CL2}
+Sliver  == {<<-48, 30>>}                               \* overlaps the L band of L / CL by four slots only: a usable band narrower than two guard bands
+Menu    == {C, L, CL, NarrowC, TopLow, BotHigh, Wide, Tri, CL2, Sliver}
 \* an OMS carries two amplifiers IN ORDER (booster, preamp): the common band must not depend on the order
 AmpPairs == Menu \X Menu
 
